@@ -194,3 +194,194 @@ impl TxPool {
         self.cloned_snapshot()
     }
 }
+
+// ------------------------------------------------------------------------------------------------
+// block assembler: one explicit update step with the state before / after (read-only apart from
+// running the real, unmodified update path itself)
+// ------------------------------------------------------------------------------------------------
+
+/// One candidate uncle as `CandidateUncles::values()` yields it, with the answers of the snapshot
+/// `prepare_uncles` would read.
+pub struct AsmCand {
+    pub hash: Byte32,
+    pub parent_hash: Byte32,
+    pub number: u64,
+    pub epoch_number: u64,
+    pub compact_target: u32,
+    pub proposals: Vec<ProposalShortId>,
+    pub is_main: bool,
+    pub is_uncle: bool,
+    pub parent_is_main: bool,
+    pub parent_is_uncle: bool,
+}
+
+/// `CurrentTemplate` as far as its content and size bookkeeping go.
+pub struct AsmState {
+    pub tip_hash: Byte32,
+    pub tip_number: u64,
+    pub epoch_number: u64,
+    pub epoch_target: u32,
+    pub number: u64,
+    pub compact_target: u32,
+    pub parent_hash: Byte32,
+    /// (hash, proposals) of the template's uncles, in order
+    pub uncles: Vec<(Byte32, Vec<ProposalShortId>)>,
+    pub proposals: Vec<ProposalShortId>,
+    /// (id, size, cycles) of the template's transactions, in order
+    pub txs: Vec<(ProposalShortId, usize, Cycle)>,
+    /// TemplateSize { txs, proposals, uncles, total }
+    pub size: [usize; 4],
+    /// basic_block_size(cellbase, uncles, proposals, extension) of the template as it is
+    pub basic: usize,
+    pub cellbase_outputs: usize,
+    pub work_id: u64,
+}
+
+/// Result of `TxPoolController::verif_assembler_step`.
+pub struct AsmStep {
+    pub before: AsmState,
+    pub after: AsmState,
+    /// candidates in `values()` order before the step; snapshot answers w.r.t. the snapshot the step reads
+    pub cands_before: Vec<AsmCand>,
+    pub cands_after: Vec<Byte32>,
+    /// pending ids in the order `get_proposals` iterates them
+    pub pending: Vec<ProposalShortId>,
+    pub pool_tip: Byte32,
+    /// `package_txs` recomputed after the step with the limit the template's basic size leaves
+    pub selected_again: Vec<ProposalShortId>,
+    /// after the step: template.cellbase == build_cellbase(snapshot), template.extension ==
+    /// build_extension(snapshot), template.dao == calc_dao(snapshot, epoch, cellbase, template txs)
+    /// with no transaction failing its resolve check
+    pub fresh: [bool; 3],
+}
+
+async fn asm_state(ba: &crate::block_assembler::BlockAssembler) -> (AsmState, std::sync::Arc<Snapshot>) {
+    use ckb_store::ChainStore;
+    let cur = ba.current.lock().await;
+    let t = &cur.template;
+    let basic = crate::block_assembler::BlockAssembler::basic_block_size(
+        t.cellbase.data(),
+        &t.uncles,
+        t.proposals.iter(),
+        t.extension.clone(),
+    );
+    let _ = cur.snapshot.get_tip_header();
+    (
+        AsmState {
+            tip_hash: cur.snapshot.tip_hash(),
+            tip_number: cur.snapshot.tip_number(),
+            epoch_number: cur.epoch.number(),
+            epoch_target: cur.epoch.compact_target(),
+            number: t.number,
+            compact_target: t.compact_target,
+            parent_hash: t.parent_hash.clone(),
+            uncles: t
+                .uncles
+                .iter()
+                .map(|u| (u.hash(), u.data().proposals().into_iter().collect()))
+                .collect(),
+            proposals: t.proposals.clone(),
+            txs: t
+                .transactions
+                .iter()
+                .map(|e| (e.proposal_short_id(), e.size, e.cycles))
+                .collect(),
+            size: [cur.size.txs, cur.size.proposals, cur.size.uncles, cur.size.total],
+            basic,
+            cellbase_outputs: t.cellbase.outputs().len(),
+            work_id: t.work_id,
+        },
+        std::sync::Arc::clone(&cur.snapshot),
+    )
+}
+
+/// kind: 0 `update_blank(snapshot)`, 1 `update_full`, 2 `update_uncles`, 3 `update_proposals`,
+/// 4 `update_transactions` — the real path is run exactly as `block_assembler::process` runs it.
+pub(crate) async fn assembler_step(
+    ba: &crate::block_assembler::BlockAssembler,
+    tx_pool: &tokio::sync::RwLock<TxPool>,
+    kind: u8,
+    snapshot: Option<std::sync::Arc<Snapshot>>,
+) -> AsmStep {
+    use ckb_store::ChainStore;
+    let (before, cur_snapshot) = asm_state(ba).await;
+    let read = match (kind, &snapshot) {
+        (0, Some(s)) => std::sync::Arc::clone(s),
+        _ => cur_snapshot,
+    };
+    let cands_before: Vec<AsmCand> = {
+        let g = ba.candidate_uncles.lock().await;
+        g.values()
+            .map(|u| {
+                let p = u.header().parent_hash();
+                AsmCand {
+                    hash: u.hash(),
+                    parent_hash: p.clone(),
+                    number: u.number(),
+                    epoch_number: u.epoch().number(),
+                    compact_target: u.compact_target(),
+                    proposals: u.data().proposals().into_iter().collect(),
+                    is_main: read.is_main_chain(&u.hash()),
+                    is_uncle: read.is_uncle(&u.hash()),
+                    parent_is_main: read.is_main_chain(&p),
+                    parent_is_uncle: read.is_uncle(&p),
+                }
+            })
+            .collect()
+    };
+    let (pending, pool_tip) = {
+        let pool = tx_pool.read().await;
+        (
+            pool.pool_map
+                .score_sorted_iter_by_status(Status::Pending)
+                .map(|e| e.proposal_short_id())
+                .collect(),
+            pool.snapshot().tip_hash(),
+        )
+    };
+    match kind {
+        0 => {
+            let _ = ba.update_blank(snapshot.unwrap_or(read)).await;
+        }
+        1 => {
+            let _ = ba.update_full(tx_pool).await;
+        }
+        2 => ba.update_uncles().await,
+        3 => ba.update_proposals(tx_pool).await,
+        _ => {
+            let _ = ba.update_transactions(tx_pool).await;
+        }
+    }
+    let (after, _) = asm_state(ba).await;
+    let cands_after = {
+        let g = ba.candidate_uncles.lock().await;
+        g.values().map(|u| u.hash()).collect()
+    };
+    let (selected_again, fresh) = {
+        let cur = ba.current.lock().await;
+        let pool = tx_pool.read().await;
+        let consensus = cur.snapshot.consensus();
+        let sel = (consensus.max_block_bytes() as usize)
+            .checked_sub(after.basic)
+            .map(|l| {
+                pool.package_txs(consensus.max_block_cycles(), l)
+                    .0
+                    .iter()
+                    .map(|e| e.proposal_short_id())
+                    .collect()
+            })
+            .unwrap_or_default();
+        let fresh = ba.verif_template_fresh(&cur);
+        (sel, fresh)
+    };
+    AsmStep {
+        before,
+        after,
+        cands_before,
+        cands_after,
+        pending,
+        pool_tip,
+        selected_again,
+        fresh,
+    }
+}
